@@ -199,22 +199,39 @@ def digits(n: int) -> List[int]:
     return [int(ch) for ch in str(n)] if n else []
 
 
-def _min_limit(payload: Dict[str, Any]) -> int:
-    """the staging estimate of one payload as seen through the API: smallest limit that accepts it"""
+def _accepts(limit: int, payloads: List[Dict[str, Any]]) -> bool:
     from clematis.engine.util.io_logging import LogStager, LogKey
-    lo, hi = 0, 4096
+    st = LogStager(byte_limit=limit)
+    try:
+        for k, p in enumerate(payloads, 1):
+            st.stage("apply.jsonl", LogKey(1, 1, 0, k), p)
+        return True
+    except RuntimeError:
+        return False
+
+
+def _min_limit(payloads: List[Dict[str, Any]]) -> int:
+    """smallest limit under which the payloads can be staged one after the other without back-pressure"""
+    lo, hi = 0, 8192
     while lo < hi:
         mid = (lo + hi) // 2
-        st = LogStager(byte_limit=mid)
-        try:
-            st.stage("apply.jsonl", LogKey(1, 1, 0, 1), payload)
+        if _accepts(mid, payloads):
             hi = mid
-        except RuntimeError:
+        else:
             lo = mid + 1
     return lo
 
 
 _PADS: Dict[int, int] = {}
+FILLER = {"i": 0, "p": "f" * 40}
+
+
+def _estimate(payload: Dict[str, Any]) -> int:
+    """the staging estimate of one payload as seen through the API, measured behind a filler record so
+    that it does not depend on what the stager does with an empty buffer:
+    est(P) = minlimit(F, P) - minlimit(F, F) / 2"""
+    two = _min_limit([FILLER, FILLER])
+    return _min_limit([FILLER, payload]) - two // 2
 
 
 def calibrate(sizes=range(1, 10)) -> Dict[int, int]:
@@ -223,7 +240,7 @@ def calibrate(sizes=range(1, 10)) -> Dict[int, int]:
         if z in _PADS:
             continue
         for p in range(0, z * UNITB + 1):
-            if _min_limit({"i": 1, "p": "x" * p}) == z * UNITB:
+            if _estimate({"i": 1, "p": "x" * p}) == z * UNITB:
                 _PADS[z] = p
                 break
         else:
